@@ -100,7 +100,10 @@ func (m *Model) node(id int, r *ModelRun) (action string, errID string) {
 		return "", errID2(id, v, "prep", 0)
 	}
 	if s.Kind == KBatch {
-		r.Keys = append(r.Keys, key("item", 1), key("item", 2), key("post", 0))
+		if sc.FirstOK != 0 {
+			r.Keys = append(r.Keys, key("item", 1), key("item", 2))
+		}
+		r.Keys = append(r.Keys, key("post", 0))
 		m.log = append(m.log, fmt.Sprint(id))
 		if sc.PostErr {
 			return "", errID2(id, v, "post", 0)
@@ -142,7 +145,9 @@ func (m *Model) node(id int, r *ModelRun) (action string, errID string) {
 	return sc.Post, ""
 }
 
-func errID2(node, visit int, phase string, attempt int) string { return errID(node, visit, phase, attempt) }
+func errID2(node, visit int, phase string, attempt int) string {
+	return errID(node, visit, phase, attempt)
+}
 
 func (m *Model) flow(id int, f *FlowSpec, r *ModelRun) (string, string) {
 	// last Connect per (from, action) wins
